@@ -31,7 +31,7 @@ ASSUMPTIONS = [
     "a run that ends in a third-party exception must end identically in every variant",
 ]
 REQUIRED_COUNTERS = {"base_runs": 30, "variant_njobs": 20, "variant_ctor_seeds": 20, "variant_verbose": 8, "variant_folder": 8,
-                     "variant_fresh_process": 4, "rl_runs": 4}
+                     "variant_fresh_process": 10, "rl_runs": 4}
 SHARDS = {"quick": 16, "thorough": 16}
 SHARD_WATCHDOG = {"quick": 1500, "thorough": 10800}
 
@@ -55,9 +55,9 @@ def compare(a, b):
     return d
 
 
-def fresh_process(cfg, calls, ctx):
+def fresh_process(cfg, calls, ctx, prelude=None):
     d = ctx.scratch()
-    (d / "job.json").write_text(json.dumps({"cfg": cfg, "calls": calls}))
+    (d / "job.json").write_text(json.dumps({"cfg": cfg, "calls": calls, "prelude": prelude}))
     env = dict(os.environ)
     try:
         subprocess.run([sys.executable, "-m", "vlib.runcfg", str(d / "job.json"), str(d / "out.npz")], env=env, timeout=300, check=True,  # noqa: S603
@@ -118,16 +118,23 @@ def run_case(desc, ctx):
         d = compare(base, r)
         if d:
             out["violations"].append({"msg": f"variant {name} differs from the base run: " + "; ".join(d[:3]), "witness": dict(wit, variant=name)})
-    if i % 8 == 3:
-        r = fresh_process(cfg, calls, ctx)
-        if r is None:
-            c["fresh_process_timeout"] = 1
-        else:
-            c["variant_fresh_process"] = 1
+    if i % 4 == 3:
+        # process history must not matter: a twin in a fresh process, and a twin in a fresh process that first ran an unrelated
+        # lower-dimensional calibration touching every cheap sampler class (shared class-level or module-level state would show)
+        prng = rng_for(desc["seed"], 1, 10**6 + i)
+        prelude = CG.gen_config(prng, kinds=G.CHEAP, n_samplers=4, max_bs=2, params=max(1, min(2, cfg["P"] - 1)), loss_kinds=["minkowski", "msm"])
+        prelude["lineup"][0]["kind"] = "Halton"
+        for name, pre in (("fresh_process", None), ("fresh_process_after_unrelated_run", prelude)):
+            r = fresh_process(cfg, calls, ctx, pre)
+            if r is None:
+                c["fresh_process_timeout"] = c.get("fresh_process_timeout", 0) + 1
+                continue
+            c["variant_fresh_process"] = c.get("variant_fresh_process", 0) + 1
             out["evals"] += 1
             d = compare(base, r)
             if d:
-                out["violations"].append({"msg": "twin in a fresh process differs from the base run: " + "; ".join(d[:3]), "witness": dict(wit, variant="fresh_process")})
+                out["violations"].append({"msg": f"twin '{name}' differs from the base run (the result depends on what ran earlier in the process): " + "; ".join(d[:3]),
+                                          "witness": dict(wit, variant=name, prelude=pre)})
     if base.get("error"):
         c["base_ended_by_exception"] = 1
         wit["ended_by"] = base["error"]
